@@ -520,6 +520,9 @@ func (p *Program) resolveTypeExpr(te *TypeExpr, tc *typeCtx) SpecType {
 	if name == "backing" {
 		return goST(backingT)
 	}
+	if name == "world" {
+		return goST(worldT)
+	}
 	if tc != nil {
 		if t, ok := tc.targs[name]; ok {
 			return goST(t)
